@@ -47,7 +47,8 @@ PARTIAL = [
     "fs != None: scipy.signal.resample is a library call (not modelled); the harness resamples the record with the same call and "
     "every ADC clause, and the model, are applied to the resampled record; V_max = V_min (0/0 -> nan) is an excluded point "
     "(feature degenerate-range)",
-    "positional twins (ADC(input, fs, n, otype), shortest_int(data, percent)) and result-aliasing are run-time clauses (oracle only)",
+    "positional twins (ADC(input, fs, n, otype), shortest_int(data, percent)), result-aliasing, call sequences on one edited "
+    "object and the argument-object monitor (array contents and attribute set unchanged by a call) are run-time clauses",
 ]
 ASSUMPTIONS = [
     "Python floats are shipped to the model as exact rationals; np.sort is a sort; np.round rounds half to even; np.clip saturates",
@@ -160,6 +161,8 @@ INT_DTYPES = {"int8": (-128, 127), "int16": (-32768, 32767), "int32": (-2 ** 31,
 
 def effective_record(case):
     """the samples the ADC has to quantise: the stored signal (in its dtype) plus the container's separate noise"""
+    if "_xs" in case:                  # one call of a call sequence: the record as it stood at that call
+        return case["_xs"]
     xs = make_record(case["spec"])
     if case.get("noise") is not None:
         ns = make_record(case["noise"])
@@ -393,6 +396,28 @@ def gen_cases(rng, tier):
                                  [rng.randrange(2 * N // 3, N), 8.0 * m[2]]]}
             cases.append({"kind": "adc", "spec": spec, "n": nb, "otype": ot, "exact": False,
                           "input": rng.choice(["ndarray", "electrical_signal"]), "directed": "big-glitch"})
+    # directed: call sequences on ONE electrical_signal object with in-place edits between the calls
+    EDITS = ["none", "gain", "offset", "attach_noise", "replace_noise", "replace_signal", "set_samples", "drop_noise"]
+    for rep in range(10 if not thorough else 80):
+        N = rng.choice([16, 200, 1000, 3000]) if rep % 5 else 10000
+        dist = ["sine", "gauss", "uniform", "quantised"][rep % 4]
+        spec = {"dist": dist, "N": N, "seed": rng.getrandbits(32), "sigma": 1.0, "mu": 0.1, "a": -1.0, "b": 1.5,
+                "amp": 10 ** rng.uniform(-1, 1), "off": rng.uniform(-1, 1), "cycles": rng.uniform(2, 9),
+                "levels": rng.randint(3, 9), "step": 0.5}
+        steps = [{"edit": "none", "n": rng.choice([2, 4, 8, 12]), "otype": rng.choice(["n", "v"])}]
+        for j in range(rng.randint(2, 4)):
+            e = EDITS[(rep + j) % len(EDITS)] if j == 0 else rng.choice(EDITS)
+            st = {"edit": e, "n": rng.choice([2, 4, 8, 12]), "otype": rng.choice(["n", "v"]), "seed": rng.getrandbits(32)}
+            if e == "gain":
+                st["g"] = rng.choice([3.0, 0.25, -2.0, 10 ** rng.uniform(-2, 2)])
+            elif e == "offset":
+                st["c"] = rng.choice([1.0, -5.0, 10 ** rng.uniform(-1, 2)])
+            elif e in ("attach_noise", "replace_noise"):
+                st["sigma"] = 10 ** rng.uniform(-1, 1)
+            elif e == "replace_signal":
+                st["amp"] = 10 ** rng.uniform(-1, 1.5)
+            steps.append(st)
+        cases.append({"kind": "adcseq", "spec": spec, "steps": steps, "noise0": (rep % 3 == 0)})
     # directed: the fs option (resampling before quantising): fs equal to, half and a quarter of gv.fs, container input
     jf = 0
     for ratio in [1.0, 0.5, 0.25]:
@@ -486,6 +511,94 @@ def gen_cases(rng, tier):
 # running the real code
 # ---------------------------------------------------------------------------------------------------------------
 
+def _obj_state(obj):
+    """attribute set and array contents of an argument object (None for plain arrays: covered by input_unchanged)"""
+    if isinstance(obj, np.ndarray) or not hasattr(obj, "__dict__"):
+        return None
+    st = {}
+    for k_, v_ in vars(obj).items():
+        st[k_] = v_.tobytes() + str(v_.dtype).encode() if isinstance(v_, np.ndarray) else repr(v_)
+    return st
+
+
+def _obj_diff(a, b, notes, func="ADC"):
+    if a is None or b is None:
+        return
+    added = sorted(set(b) - set(a))
+    removed = sorted(set(a) - set(b))
+    changed = sorted(k_ for k_ in set(a) & set(b) if a[k_] != b[k_] and k_ != "execution_time")
+    if added or removed:
+        notes.append(["argument-attributes", func, f"the call changed the argument object's attribute set: added {added}, removed {removed}"])
+    if changed:
+        notes.append(["argument-modified", func, f"the call modified attribute(s) {changed} of the argument object"])
+
+
+def _run_sequence(case):
+    """several ADC calls on ONE electrical_signal object, edited in place between the calls; every call is recorded
+    with the record (signal + noise) as it stood at that call"""
+    import opticomlib.devices as D
+    from opticomlib import electrical_signal
+    res = {"status": "ok", "steps": []}
+    try:
+        with warnings.catch_warnings():
+            warnings.simplefilter("ignore")
+            sig0 = np.array(make_record(case["spec"]), dtype=float)
+            N = len(sig0)
+            if case.get("noise0"):
+                x = electrical_signal(sig0, np.array(make_record({"dist": "gauss", "N": N, "seed": 11, "sigma": 0.2, "mu": 0.0})))
+            else:
+                x = electrical_signal(sig0)
+            real = D.shortest_int
+            for st in case["steps"]:
+                r = random.Random(st.get("seed", 0))
+                e = st["edit"]
+                if e == "gain":
+                    x.signal *= st["g"]
+                elif e == "offset":
+                    x.signal += st["c"]
+                elif e in ("attach_noise", "replace_noise"):
+                    x.noise = np.array([r.gauss(0.0, st["sigma"]) for _ in range(N)])
+                elif e == "drop_noise":
+                    x.noise = None
+                elif e == "replace_signal":
+                    x.signal = np.array([st["amp"] * r.uniform(-1, 1) for _ in range(N)])
+                elif e == "set_samples":
+                    x.signal[: max(1, N // 3)] = np.array([r.uniform(-4, 4) for _ in range(max(1, N // 3))])
+                record = np.asarray(x.signal, dtype=float) + (0.0 if x.noise is None else np.asarray(x.noise, dtype=float))
+                spied, notes = [], []
+
+                def spy(signal, percent=50, spied=spied):
+                    q = real(signal, percent)
+                    spied.append((float(percent), float(q[0]), float(q[1])))
+                    return q
+                D.shortest_int = spy
+                before = _obj_state(x)
+                try:
+                    with time_limit(60):
+                        out = D.ADC(x, n=st["n"], otype=st["otype"])
+                finally:
+                    D.shortest_int = real
+                _obj_diff(before, _obj_state(x), notes)
+                sig = np.asarray(out.signal)
+                res["steps"].append({"status": "ok", "edit": e, "record": [float(v) for v in record],
+                                     "cls": type(out).__name__, "dtype": str(sig.dtype), "out": [float(v) for v in sig.ravel()],
+                                     "shape": list(sig.shape), "vmin": spied[0][1] if spied else None,
+                                     "vmax": spied[0][2] if spied else None, "percent": spied[0][0] if spied else None,
+                                     "n_range_calls": len(spied), "input_unchanged": True, "notes": notes})
+    except Timeout as e_:
+        res.update(status="timeout", detail=str(e_))
+    except Exception as e_:  # noqa
+        res.update(status="err", err=exc_enum(e_), detail=repr(e_)[:200])
+    return res
+
+
+def _sub(case, res, i):
+    """step i of a call sequence as an ordinary ADC case / result"""
+    st, rs = case["steps"][i], res["steps"][i]
+    return ({"kind": "adc", "spec": {"data": []}, "n": st["n"], "otype": st["otype"], "exact": False, "input": "electrical_signal",
+             "_xs": rs["record"]}, rs)
+
+
 def run_impl(case):
     res = {}
     try:
@@ -526,6 +639,8 @@ def run_impl(case):
                 res.update(status="ok", lo=float(out[0]), hi=float(out[1]), n_out=int(np.size(out)), notes=notes)
                 if before is not None and not np.array_equal(before, arg):
                     res["mutated"] = True
+            elif case["kind"] == "adcseq":
+                return _run_sequence(case)
             else:
                 import opticomlib.devices as D
                 from opticomlib import electrical_signal
@@ -548,6 +663,7 @@ def run_impl(case):
                 D.shortest_int = spy
                 fs = None if case.get("fs_ratio") is None else case["fs_ratio"] * _gv_fs()
                 notes = []
+                attrs0 = _obj_state(arg)
                 try:
                     with time_limit(60):
                         out = D.ADC(arg, fs=fs, n=case["n"], otype=case["otype"])          # by keyword
@@ -559,6 +675,7 @@ def run_impl(case):
                             notes.append(["positional", "ADC", f"positional call failed: {type(e).__name__}: {e}"[:160]])
                 finally:
                     D.shortest_int = real
+                _obj_diff(attrs0, _obj_state(arg), notes)
                 sig = np.asarray(out.signal)
                 res.update(status="ok", cls=type(out).__name__, dtype=str(sig.dtype), out=[float(v) for v in sig.ravel()],
                            shape=list(sig.shape), noise=None if out.noise is None else "present",
@@ -579,6 +696,12 @@ def run_impl(case):
 def model_requests(case, res):
     if res["status"] == "timeout":
         return []
+    if case["kind"] == "adcseq":
+        out = []
+        for i in range(len(res.get("steps", []))):
+            sc, sr = _sub(case, res, i)
+            out += model_requests(sc, sr)
+        return out
     if case["kind"] == "sint":
         if not case.get("model", True) or not (0 <= case["p"]):
             return []
@@ -605,6 +728,12 @@ def _finite(*xs):
 def compare(case, res, reqs, replies):
     if not reqs:
         return []
+    if case["kind"] == "adcseq":
+        bad = []
+        for i in range(len(res["steps"])):
+            sc, sr = _sub(case, res, i)
+            bad += [f"call {i + 1} (after {sr['edit']}): {d}" for d in compare(sc, sr, reqs[i:i + 1], replies[i:i + 1])]
+        return bad
     rep = replies[0]
     if case["kind"] == "sint":
         if res["status"] == "err":
@@ -720,10 +849,36 @@ def _sint_oracle(data, p, lo, hi, tag):
     return v + reports[0]
 
 
+def _reference_range(xs):
+    """the 99.99 % range the statement determines for a record, or None when several windows are tied"""
+    s_ = sorted(float(x) for x in xs)
+    n = len(s_)
+    if n < 2 or not _finite(*s_):
+        return None
+    lag = (n * 9999) // 10000
+    if lag >= n:
+        return None
+    widths = [Fraction(s_[j + lag]) - Fraction(s_[j]) for j in range(n - lag)]
+    best = min(widths)
+    slack = TIE_TOL + Fraction(max(abs(s_[0]), abs(s_[-1]))) * Fraction(4, 2 ** 52)
+    cand = [j for j, w in enumerate(widths) if w - best < slack]
+    if len(cand) != 1:
+        return None
+    return s_[cand[0]], s_[cand[0] + lag]
+
+
 def oracle(case, res):
     v = []
     if res["status"] == "timeout":
         return [(f"C18:{case['kind']}:timeout", f"no return on {str(case)[:150]}")]
+    if case["kind"] == "adcseq":
+        if res["status"] != "ok":
+            return [("C18:ADC:sequence", f"call sequence failed after {len(res.get('steps', []))} calls: {res.get('err')} {res.get('detail', '')[:120]}")]
+        for i in range(len(res["steps"])):
+            sc, sr = _sub(case, res, i)
+            edits = [st["edit"] for st in case["steps"][: i + 1]]
+            v += [(sig, f"call {i + 1} of a sequence on one object (edits so far {edits}): {msg}") for sig, msg in oracle(sc, sr)]
+        return v
     for kind_, func, msg in res.get("notes", []):
         v.append((f"C18:{kind_}:{func}", msg))
     if case["kind"] == "sint":
@@ -746,13 +901,20 @@ def oracle(case, res):
     if res["status"] != "ok":
         return [("C18:ADC:accept", f"ADC(record of {N}, n={nb}, otype={ot!r}) failed: {res.get('err')} {res.get('detail', '')[:100]}")]
     if res["vmin"] is None:
-        return [("C18:ADC:range-estimate", "ADC did not call shortest_int")]
-    vmin, vmax = res["vmin"], res["vmax"]
-    if res["percent"] != 99.99:
-        v.append(("C18:ADC:percent", f"full-scale range estimated with {res['percent']!r} %"))
-    v += _sint_oracle(xs, res["percent"], vmin, vmax, "ADC-range")
-    if not _finite(vmin, vmax):
-        return v                # already reported as C18:ADC-range:non-finite
+        # the call did not estimate the range of this record: judge it against the range the statement determines
+        # (unique when no other window is within the tie tolerance of the narrowest)
+        v.append(("C18:ADC:range-estimate", "ADC did not call shortest_int on the record it was given"))
+        ref = _reference_range(xs)
+        if ref is None:
+            return v
+        vmin, vmax = ref
+    else:
+        vmin, vmax = res["vmin"], res["vmax"]
+        if res["percent"] != 99.99:
+            v.append(("C18:ADC:percent", f"full-scale range estimated with {res['percent']!r} %"))
+        v += _sint_oracle(xs, res["percent"], vmin, vmax, "ADC-range")
+        if not _finite(vmin, vmax):
+            return v                # already reported as C18:ADC-range:non-finite
     out = res["out"]
     if len(out) != N or res["shape"] != [N]:
         v.append(("C18:ADC:length", f"{len(out)} output samples (shape {res['shape']}) for {N} input samples"))
@@ -834,6 +996,10 @@ def oracle(case, res):
 def features(case, res):
     k = case["kind"]
     f = ["kind=" + k, "status=" + res["status"]]
+    if k == "adcseq":
+        f.append(f"adcseq:calls={len(case['steps'])}")
+        f += ["adcseq:edit=" + st["edit"] for st in case["steps"]]
+        return f
     if res["status"] == "err":
         f.append(f"{k}:err=" + res["err"])
     if k == "sint":
@@ -890,6 +1056,8 @@ def features(case, res):
 def nontrivial_key(case, res):
     if res["status"] != "ok":
         return None
+    if case["kind"] == "adcseq":
+        return ("adcseq", case["spec"]["seed"], tuple(st["edit"] for st in case["steps"]))
     if case["kind"] == "sint":
         return ("sint", tuple(case["data"]), case["p"]) if len(case["data"]) >= 2 else None
     if res.get("vmin") == res.get("vmax"):
